@@ -16,7 +16,7 @@ def run(ctx):
     ctx.clause = ("(a) with a failed load (null corpus / group / translation unit) abidiff and abicompat can only "
                   "exit with the ERROR bit; (b) the dwarf loader never pairs a null corpus with STATUS_OK; (c) the "
                   "ABIXML reader returns a non-null result only after a null-checked full expansion of the root node")
-    ctx.rules = ["R-LOADFAIL", "R-LOADFAIL/L2", "R-EXPAND", "R-XMLSRC", "R-SYMSRC"]
+    ctx.rules = ["R-LOADFAIL", "R-LOADFAIL/L2", "R-EXPAND", "R-XMLSRC", "R-SYMSRC", "R-HANDLEARG"]
     n_sites = 0
     for tool in ("abidiff", "abicompat"):
         P, I, main, rets = sr.analyse_tool(ctx, tool)
@@ -28,6 +28,10 @@ def run(ctx):
     check_xmlsrc(ctx)
     from rules import C18
     C18.check_symsrc(ctx)
+    # a null elfutils handle (file truncated inside its headers) must reach the status, not an assertion
+    from rules import C34
+    nh = C34.check_handlearg(ctx, ctx.program(["src/abg-dwarf-reader.cc", "src/abg-symtab-reader.cc", "src/abg-elf-helpers.cc"]))
+    ctx.floor("R-HANDLEARG", "elfutils handles passed to a parameter the callee asserts", nh, 1)
     ctx.assume("libxml2's xmlTextReaderExpand fails on any unterminated subtree; elfutils reports unreadable ELF through the status the dwarf reader tests")
 
 
